@@ -106,6 +106,19 @@ def _vec(x, f):
     return f(x)
 
 
+def add_scalar(arr, s):
+    """array + scalar for object arrays of S as well as float arrays"""
+    if isinstance(arr, np.ndarray) and arr.dtype == object:
+        out = np.empty(arr.shape, dtype=object)
+        of = out.reshape(-1)
+        for i, v in enumerate(arr.reshape(-1)):
+            of[i] = v + s
+        return out
+    if isinstance(arr, np.ndarray):
+        return arr + s
+    return arr + s
+
+
 # ---------------------------------------------------------------------- linear algebra (adjugate)
 def det(ops, M):
     n = M.shape[0]
